@@ -23,12 +23,12 @@ func init() {
 }
 
 type c11Pend struct {
-	p    *Peer
-	kind string // est / mod / del
-	s    *CPSession
-	m    *ModSpec
-	msg  message.Message
-	tag  string
+	p         *Peer
+	kind      string // est / mod / del
+	s         *CPSession
+	m         *ModSpec
+	msg       message.Message
+	tag       string
 	pool      bool // establishment that asks the UPF for a UE address
 	mayReject bool // acceptance depends on the order within the round (pool nearly exhausted)
 	// aimAtWrite: (UP4) not sent with the others but at the moment the switch
